@@ -193,7 +193,7 @@ let mname (x : m) : String.t =
   match x with MRe (id, _) -> id | MDefault p -> "default:" ^ ostring_of_bytes p | MCustom s -> "custom:" ^ s
 
 (* same layout as VerifDumpPolicy in /repo/verif_hooks.go (names are printable ASCII in the cases) *)
-let dump_policy (p : (m, u, r) policy) : unit =
+let dump_policy_gen : 'a 'b 'c. ('a -> String.t) -> ('b -> String.t) -> ('c -> String.t) -> ('a, 'b, 'c) policy -> unit = fun mname uname rname p ->
   let q (b : n list) = "\"" ^ ostring_of_bytes b ^ "\"" in
   let pb k v = Printf.printf "%s=%b\n" k v in
   pb "addSpaces" p.addSpaces; pb "requireNoFollow" p.requireNoFollow; pb "requireNoFollowFQ" p.requireNoFollowFQ;
@@ -224,15 +224,18 @@ let dump_policy (p : (m, u, r) policy) : unit =
     (by_key (List.map (fun ((_, mm), v) -> (mname mm, v)) p.elsMatchingAndStyles));
   dump_map "globalStyles" sps p.globalStyles;
   List.iter (fun (k, v) -> Printf.printf "allowURLSchemes \"%s\": %s\n" k
-                (String.concat " " (List.map (fun f -> match f with UData -> "data" | UNamed s -> s) v)))
+                (String.concat " " (List.map uname v)))
     (skeys p.allowURLSchemes);
   Printf.printf "allowURLSchemeRegexps: %s\n" (String.concat " " (List.map mname p.allowURLSchemeRegexps));
-  Printf.printf "srcRewriter: %s\n" (match p.srcRewriter with None -> "nil" | Some (RNamed s) -> s);
+  Printf.printf "srcRewriter: %s\n" (match p.srcRewriter with None -> "nil" | Some f -> rname f);
   let set l = "[" ^ String.concat " " (List.map (fun s -> "\"" ^ s ^ "\"") (List.sort_uniq compare (List.map ostring_of_bytes l))) ^ "]" in
   Printf.printf "elsNoAttrs: %s\n" (set p.elsNoAttrs);
   Printf.printf "elsMatchingNoAttrs: %s\n" (String.concat " " (List.map mname p.elsMatchingNoAttrs));
   Printf.printf "elsSkipContent: %s\n" (set p.elsSkipContent);
   print_string "END\n"
+
+let dump_policy (p : (m, u, r) policy) : unit =
+  dump_policy_gen mname (fun f -> match f with UData -> "data" | UNamed s -> s) (fun (RNamed s) -> s) p
 
 let split_ws (s : String.t) : String.t list =
   List.filter (fun x -> x <> "") (String.split_on_char ' ' s)
@@ -339,6 +342,9 @@ let handle_line (line : String.t) : unit =
     print_string ("V " ^ out ^ "\n")
   | ["EQFOLD"; a; b] -> print_string (if equal_fold (bytes_of_hex a) (bytes_of_hex b) then "V 1\n" else "V 0\n")
   | ["DUMP"; id] -> dump_policy (get_policy id)
+  | ["DUMPSHIPPED"; which] ->
+    let p = (match which with "ugc" -> ugc | "strict" -> strict | _ -> failwith "shipped") in
+    dump_policy_gen (fun (name, _) -> string_of_chars name) (fun () -> "?") (fun () -> "?") p
   | cmd :: _ -> failwith ("unknown command " ^ cmd)
 
 let () =
